@@ -67,7 +67,9 @@ func c06Round4(c *Ctx) {
 		sts := findInstrs(fn, storeValPred(`s\.connected`, `true`))
 		joins := CallsTo(Calls(fn), `\(\*sio\.serverSocket\)\.Join`)
 		reply := CallsTo(Calls(fn), `\(\*sio\.serverSocket\)\.sendControlPacket`)
-		if len(sts) != 1 || len(joins) == 0 || len(reply) == 0 {
+		// (a tree that joins the own room elsewhere has no join to place here: joining before the socket is registered
+		// cannot race with its close, and a join after the close is C06-D6's matter)
+		if len(sts) != 1 || len(reply) == 0 {
 			c.Undecided("C06-D9: onConnect: connected=true stores %d, Join calls %d, sendControlPacket calls %d", len(sts), len(joins), len(reply))
 		} else {
 			st := sts[0]
